@@ -105,6 +105,9 @@ def cases(E):
                                    target=["a816.cli.cli_main"], overrides=OVR_CLI))
     for rt in ("low_rom", "low_rom_2", "high_rom"):
         cs.append(Case(H + "bus_mapping_total_contract", rt, lambda B, rt=rt: {"rom_type_name": rt, "v": B.int("v")}, target=["a816.symbols.Resolver.get_bus"]))
+    cs.append(Case(H + "assemble_as_patch_contract", "mapping omitted on a Program set to HiROM beforehand",
+                   lambda B: {"program": drv.program(B, "high_rom"), "status": B.int("status"), "outcome": 0, "mapping": None, "copier": False},
+                   target=[P + "assemble_as_patch"], overrides=drv.OVR_TOP))
     for outcome in (0, 7):
         for mapping in ("low", "low2", "high"):
             cs.append(Case(H + "assemble_as_patch_contract", f"outcome={outcome},mapping={mapping},copier=True",
@@ -112,7 +115,7 @@ def cases(E):
                            target=[P + "assemble_as_patch"], overrides=drv.OVR_TOP))
     for mapping in (None, "low", "low2", "high"):
         cs.append(Case(H + "assemble_contract", f"mapping={mapping}",
-                       lambda B, mapping=mapping: {"program": drv.program(B), "status": B.int("status"), "outcome": 0, "mapping": mapping},
+                       lambda B, mapping=mapping: {"program": drv.program(B, "high_rom" if mapping is None else "low_rom"), "status": B.int("status"), "outcome": 0, "mapping": mapping},
                        target=[P + "assemble"], overrides=drv.OVR_TOP))
     cs.append(Case(H + "assemble_with_emitter_contract", "same call as the in-memory API",
                    lambda B: {"program": drv.program(B), "emitter": drv.emitter(B), "outcome": B.int("outcome"), "file_exists": True},
